@@ -58,6 +58,17 @@ Definition ph_text (sty : style) (n : nat) : string :=
   | Pyformat => "%(" ++ "param" ++ nat_to_string (S n) ++ ")s"
   end.
 
+(* cls(name).get_sql(): a parameter object constructed with an explicit placeholder (ParameterValueWrapper's own parameter);
+   QmarkParameter / FormatParameter ignore the name *)
+Definition explicit_text (sty : style) (name : string) : string :=
+  match sty with
+  | Qmark => "?"
+  | Numeric => ":" ++ name
+  | Format => "%s"
+  | Named => ":" ++ name
+  | Pyformat => "%(" ++ name ++ ")s"
+  end.
+
 (* parameter.get_param_key(placeholder=param_sql): Parameter: identity; DictParameter: [1:]; PyformatParameter: [2:-2] *)
 Definition param_key (sty : style) (ph : string) : string :=
   match sty with
